@@ -1,15 +1,18 @@
 """C10 Instance free-core accounting is exact — E1 family: the real code over minisql vs the Lean model BatchDB, oracle `oracles.c10`."""
-from ..batchdb.prop import E1Prop
+from ..batchdb import actors
+from ..batchdb.prop import ActorCasesMixin, E1Prop
 
 
-class C10(E1Prop):
+class C10(ActorCasesMixin, E1Prop):
+    actor_share = 0.3
+    actor_flavour = 'c10'
     id = 'C10'
     title = 'Instance free-core accounting is exact'
     design_ref = 'DESIGN.md §4 C10 (Engine E1)'
     oracle_name = 'c10'
     adversarial_share = 0.0
     nontrivial_tags = ['instance-with-open-attempts']
-    level_text = 'Oracle after every op: for every pending/active instance free_cores_mcpu = cores_mcpu - sum of cores of attempts on it without end_time; inactive/deleted => all free; the in-memory mirror (real Instance objects fed the returned delta_cores_mcpu as the driver does) equals the database value.'
+    level_text = 'Oracle after every op: for every pending/active instance free_cores_mcpu = cores_mcpu - sum of cores of attempts on it without end_time; inactive/deleted => all free; the in-memory mirror (real Instance objects fed the returned delta_cores_mcpu as the driver does) equals the database value. A third of the cases run the REAL driver.job functions (schedule_job incl. its worker POST, mark_job_started / mark_job_complete, unschedule_job, Instance.deactivate) through the real scheduler / canceller loops with real Instance objects: after every pass, for every instance, the in-memory Instance.free_cores_mcpu = the database row = total minus un-ended attempts, including preemption and the job_started report arriving while schedule_job’s POST is in flight.'
     level_note = ('Partial: the server is harness/minisql (semantics list in trusted_base), every transaction is one atomic step, histories are generated '
                   '(not exhaustive); the Lean model is tied to the code only as far as the compared answers and dumps show. '
                   'Known findings of the unchanged tree are listed in known_findings.json and printed as KNOWN-FINDING.')
@@ -21,6 +24,10 @@ class C10(E1Prop):
     def make_history(self, rng):
         from ..batchdb import gen
         return gen.history(rng, special=0.2, weights={'dead-instance-attempt': 6.0, 'late-schedule': 2.0})
+
+
+    def actor_checks(self):
+        return ([lambda w, before, after: actors.free_cores(w, after)], [lambda w, v: actors.free_cores(w, v)])
 
 
 PROP = C10()
